@@ -176,6 +176,15 @@ def _mutations(seed, count):
         p = "/".join("d%d" % i for i in range(n))
         out.append({"id": "deep-%d" % n, "main": "build.ninja",
                     "files": {"build.ninja": "rule r\n  command = c\nbuild %s: r\n" % p}})
+    # a file that includes itself, directly or through others, by include or subninja
+    for i, (a, b) in enumerate([("include build.ninja\n", None), ("subninja build.ninja\n", None),
+                                ("x = 1\ninclude other.ninja\n", "subninja build.ninja\n"),
+                                ("subninja other.ninja\n", "include other.ninja\n"),
+                                ("include other.ninja\ninclude other.ninja\n", "y = 2\n")]):
+        files = {"build.ninja": a}
+        if b is not None:
+            files["other.ninja"] = b
+        out.append({"id": "cycle-%d" % i, "main": "build.ninja", "files": files})
     for text in ("rule r\n  command = c\nbuild $undefined: r\n", "include $nothing\n", "subninja $nothing\n",
                  "rule r\n  command = c\nbuild a: r $nothing\n", "default $nothing\n"):
         out.append({"id": "empty-exp", "main": "build.ninja", "files": {"build.ninja": text}})
@@ -207,6 +216,8 @@ def robust_engine(tier, seed, wdir):
             tag = "deep-path-" + b["kind"]
         elif bid == "empty-exp":
             tag = "empty-path-" + b["kind"]
+        elif bid.startswith("cycle-"):
+            tag = "include-cycle-" + b["kind"]
         elif bid.startswith("wide"):
             tag = "multibyte-excerpt-" + b["kind"]
         viol.append(_viol("C12", tag, "mutations", b))
